@@ -94,6 +94,19 @@ def rand_traces(ctx, exe, mode, ty, nseq, length, env):
     return outs, evals, aborts
 
 
+_OP1 = re.compile(r'\{"e":"(?:Edge|Step)",("ty":"\w+","op":\{[^{}]*\},"res":-?\d+,"err":(?:true|false))')
+_OPN = re.compile(r'\{"e":"Step",("ty":"N\d","op":\{"k":"\w+","t":\d,"a":-?\d+,"b":-?\d+,"c":\[[-\d,]*\])')
+
+
+class _Lazy:
+    """records of a chunk, parsed on demand"""
+    def __init__(self, lines):
+        self.lines = lines
+
+    def __getitem__(self, i):
+        return json.loads(self.lines[i])
+
+
 def _replay_file(ctx, recs, i, name):
     """two-line reproduction of the unexplained record recs[i]: the state it started from + the record"""
     r = recs[i]
@@ -104,7 +117,7 @@ def _replay_file(ctx, recs, i, name):
             j -= 1
         if j >= 0:
             pre = {"e": "Pre", "ty": r.get("ty", ""), "post": recs[j]["post"]}
-            for key in ("D", "K"):
+            for key in ("D", "K", "hist"):
                 if key in recs[j]:
                     pre[key] = recs[j][key]
             out.append(pre)
@@ -133,27 +146,24 @@ def validate(ctx, files, jobs):
         with cf.ThreadPoolExecutor(max(1, jobs)) as ex:
             res = list(ex.map(one, ps))
         for (p, ok, r, at) in res:
-            recs = lib.read_ndjson(p)
-            ctx.evaluations += len(recs)
+            with open(p) as f:
+                lines = f.readlines()
+            recs = _Lazy(lines)
+            ctx.evaluations += len(lines)
             ctx.transitions += r.generated
             ctx.states += r.distinct
             if at is not None or not ok:
                 ctx.violation("trace not consumed by %s (line %s)" % (mod, at), p)
                 continue
-            # coverage counters: histories, distinct non-trivial (type, operation) pairs
-            prev = None
-            for rec in recs:
-                e = rec.get("e")
-                if e in ("Edge", "Step"):
-                    if e == "Edge":
-                        ctx.traces += 1
-                    changed = prev is not None and rec.get("post") != prev
-                    if changed or rec.get("err"):
-                        ctx.nontrivial((rec.get("ty"), rec.get("op"), bool(rec.get("err"))))
-                if e in ("Pre", "Init", "Step"):
-                    prev = rec.get("post")
-                if e == "Config" and rec.get("mode") != "bfs":
+            # coverage counters: histories, distinct (type, operation with arguments, error flag) triples
+            for line in lines:
+                if line.startswith('{"e":"Edge"'):
                     ctx.traces += 1
+                elif line.startswith('{"e":"Config"') and '"mode":"bfs"' not in line:
+                    ctx.traces += 1
+                m = _OP1.match(line) or _OPN.match(line)
+                if m:
+                    ctx.distinct.add(m.group(1))
             bad = lib.unexplained(r)
             new = []
             for (ln, cls) in bad:
@@ -161,14 +171,18 @@ def validate(ctx, files, jobs):
                     ctx.known_hits[cls] = known_ids[cls].get("what", "")
                 else:
                     new.append(ln)
-            for ln in new[:5]:
+            if new:
+                ctx.extra["unexplained_lines"] = ctx.extra.get("unexplained_lines", 0) + len(new)
+            for ln in new[:3]:
+                if len(ctx.violations) >= 12:
+                    break
                 rec = recs[ln - 1]
                 rp = _replay_file(ctx, recs, ln - 1, "violation-%s-%d.ndjson" % (os.path.basename(p).replace(".ndjson", ""), ln))
                 what = "sanitizer report / abort inside %s" % json.dumps(rec.get("op")) if rec.get("e") == "Abort" \
                     else "recorded step not explained by the specification: %s" % json.dumps({k: rec.get(k) for k in ("ty", "op", "err")})
                 ctx.violation(what[:300], rp, rec=rec)
-            if len(new) > 5:
-                ctx.notes.append("%s: %d further unexplained lines" % (os.path.basename(p), len(new) - 5))
+            if len(new) > 3:
+                ctx.notes.append("%s: %d unexplained lines" % (os.path.basename(p), len(new)))
 
 
 def run(ctx):
